@@ -21,6 +21,7 @@ import (
 	"encoding/json"
 	"fmt"
 	"os"
+	"reflect"
 	"strings"
 	"sync"
 	"time"
@@ -44,7 +45,7 @@ type decIn struct {
 	Shape      string `json:"shape"`  // live | restart | empty
 	NSwaps     int    `json:"nswaps"` // live: number of processors whose settings change (1..3)
 	NameToo    bool   `json:"name_too"`
-	Stale      int    `json:"stale"` // 0 fresh hash, 1 junk hash, 2 state changed after the plan was shown
+	Stale      int    `json:"stale"` // 0 fresh hash, 1 junk hash, 2 state changed after the plan was shown (another step), 3 state changed inside an entity the plan already updates (same steps, other fields)
 	Run1       bool   `json:"run1"`
 	Run2       bool   `json:"run2"`
 	Auth       bool   `json:"auth"`
@@ -483,12 +484,30 @@ func runDec(in decIn) (o decObs) {
 		if err := w.env.Prov.Import(bg, provx.Render(other)); err != nil {
 			panic(err)
 		}
+	case 3: // somebody changes ANOTHER field of an entity the plan updates: the step list is the same, what each
+		// step touches is not (only the field-level detail of the plan tells the two apart)
+		other := clone(old)
+		if in.Shape == "live" && len(other.Conns[0].Procs) > 0 {
+			other.Conns[0].Procs[0].Settings = 2
+		} else {
+			other.Conns[0].Settings = 2
+		}
+		if err := w.env.Prov.Import(bg, provx.Render(other)); err != nil {
+			panic(err)
+		}
 	}
 	fresh, err := w.env.Prov.Plan(bg, cfg)
 	if err != nil {
 		panic(err)
 	}
-	o.HashOK = fresh.Hash == hash
+	// Ground truth for "the plan shown to the operator is still the plan": decided here, independently of the
+	// code's hash, by comparing the change lists (steps with their field-level detail) of the plan that was shown
+	// and of a plan made now; the desired config is the same by construction. The code's own verdict
+	// (fresh.Hash == hash) is logged next to it.
+	o.HashOK = in.Stale != 1 && reflect.DeepEqual(plan.Changes, fresh.Changes)
+	if (fresh.Hash == hash) != o.HashOK {
+		o.Aux += "hash-verdict-differs-from-plan-comparison;"
+	}
 	o.Empty = fresh.Empty()
 	o.Live = fresh.LiveEligible()
 	w.live = o.Live
@@ -677,7 +696,7 @@ func genDec(r *hx.Rand) decIn {
 		Run1: r.Bool(), Run2: r.Chance(1, 3), Auth: r.Chance(3, 4), ImpInplace: r.Chance(4, 5), RbImp: r.Chance(4, 5),
 		Stop: r.Chance(3, 4), Imp: r.Chance(3, 4), Start: r.Chance(3, 4)}
 	if r.Chance(1, 5) {
-		in.Stale = 1 + r.Intn(2)
+		in.Stale = 1 + r.Intn(3)
 	}
 	in.Swaps = make([]int, in.NSwaps)
 	for i := range in.Swaps {
@@ -698,7 +717,7 @@ func allDec(emit func(decIn), shard, shards int) {
 	bools := []bool{false, true}
 	swapVecs := [][]int{{0}, {1}, {2}, {0, 0}, {0, 1}, {0, 2}, {1, 0}, {2, 0}, {0, 0, 0}, {0, 0, 2}, {0, 0, 1}}
 	for _, shape := range []string{"live", "restart", "empty"} {
-		for stale := 0; stale <= 2; stale++ {
+		for stale := 0; stale <= 3; stale++ {
 			for _, run1 := range bools {
 				for _, run2 := range bools {
 					for _, auth := range bools {
